@@ -5,22 +5,34 @@ import os
 
 import common
 import srvkit
+from props import c12_tr, c12_wire
 
 ID = "C12"
 LEAN_MODEL_TARGETS = ["drv_c12"]
-LEAN_PROOF_TARGETS = ["PyroProps.C12"]
-AUDIT_FILES = ["PyroModel/Context.lean", "PyroModel/Gen/C12.lean", "PyroProofs/Context.lean", "PyroProps/C12.lean"]
+LEAN_PROOF_TARGETS = ["PyroProps.C12", "PyroProps.C12Src"]
+AUDIT_FILES = ["PyroModel/Context.lean", "PyroModel/Gen/C12.lean", "PyroModel/Gen/C12Src.lean", "PyroProofs/Context.lean",
+               "PyroProps/C12.lean", "PyroProps/C12Src.lean"]
 THEOREMS = ["Pyro.C12.C12_no_leak", "Pyro.C12.C12_no_method_no_annotation", "Pyro.C12.C12_read", "Pyro.C12.C12_client",
-            "Pyro.C12.C12_client_run", "Pyro.C12.C12_gen_facts"]
-SUITES = ["context", "client"]
+            "Pyro.C12.C12_client_run", "Pyro.C12.C12_gen_facts",
+            "Pyro.C12.C12_handler_translated", "Pyro.C12.C12_pyroInvoke_translated", "Pyro.C12.C12_wrun_translated",
+            "Pyro.C12.C12_client_wire", "Pyro.C12.C12_source_client_wire", "Pyro.C12.C12_client_wire_fresh",
+            "Pyro.C12.C12_client_own_reply", "Pyro.C12.wcall_old", "Pyro.C12.C12_client_history",
+            "Pyro.C12.C12_source_client_history"]
+SUITES = ["context", "client", "wire"]
 RULE = ("histories of 1-3 clients on the real multiplex server (one thread for all clients), the real thread-pool server, and the "
         "thread-pool server with ONE worker and successive connections (worker reuse): handshakes, pings, calls whose methods set "
         "distinct response annotations by assignment or by mutation and then return or raise, oneway calls whose method writes "
         "immediately or after a later release point, refused calls; every reply's annotation keys and every context snapshot "
         "compared with the model and checked directly; non-trivial = history with a raising or oneway annotating method followed by "
-        "a reply to another request; distinct = distinct model line x transport")
+        "a reply to another request; distinct = distinct model line x transport.  Suite wire: a real Proxy on an in-memory scripted "
+        "peer, 2-8 calls: accepted replies, replies with wrong sequence number / serializer id / message type, no reply, oneway, "
+        "releases with CONNECTOK / CONNECTFAIL answers carrying annotations, waits interrupted by an application exception so that "
+        "the reply stays unread and meets the next call; non-trivial = a call read a message that was not its own honest reply")
 ASSUMPTIONS = ["threading.local isolates threads", "oneway writes happen at the release points the harness chooses (the model allows any point)"]
-TRUSTED = ["harness/srvkit.py (in-memory sockets, real Daemon / transports / oneway threads)"]
+TRUSTED = ["harness/srvkit.py (in-memory sockets, real Daemon / transports / oneway threads)",
+           "harness/props/c12_wire.py (scripted in-memory peer of a real Proxy)",
+           "harness/props/c12_tr.py (transcription of Proxy._pyroInvoke; refuses what it does not understand)",
+           "model operations connectOp / sendOp / recvOp stand for __pyroCreateConnection / connection.send / protocol.recv_stub"]
 
 
 def extract():
@@ -83,6 +95,8 @@ def extract():
         ctx0.from_global(saved)
     captured = seen == [111]
     b = lambda x: "true" if x else "false"
+    # the transcription of the current source of Proxy._pyroInvoke (harness/props/c12_tr.py -> Gen/C12Src.lean)
+    common.write_if_changed(os.path.join(common.LEAN, "PyroModel", "Gen", "C12Src.lean"), c12_tr.render(client))
     return f"""-- GENERATED by harness/props/c12.py from Pyro5/server.py, callcontext.py, client.py — do not edit
 namespace Pyro.Gen.C12
 def contextIsThreadLocal : Bool := {b(isinstance(callcontext.current_context, threading.local))}
@@ -499,16 +513,29 @@ def _client_suite(ctx, n):
 def correspondence(ctx):
     _run(ctx, "hist", ctx.n(150, 2500), True)
     _client_suite(ctx, ctx.n(40, 800))
+    c12_wire.run(ctx, ctx.n(250, 4000))
 
 
 def oracle(ctx):
     if ctx.search_mode:
+        c12_wire.run(ctx, ctx.n(600, 6000), do_model=False, name="wire-search")
         _run(ctx, "search", ctx.n(250, 3000), False)
 
 
 def replay(ctx, case):
     f = case.get("failing_input") or {}
     c = f.get("case") or {}
+    w = f.get("wire_steps") or c.get("wire_steps")
+    if w:
+        obs = c12_wire.run_steps(w)
+        print(";".join("%d:%s:%s" % (o["connected"], ",".join(map(str, o["seen"])) or "-", o["outcome"]) for o in obs))
+        before = len(ctx.failures)
+        c12_wire.check(ctx, w, obs, {"wire_steps": w})
+        for fl in ctx.failures[before:]:
+            print("  ", fl["desc"])
+        bad = len(ctx.failures) > before
+        print("VIOLATION reproduced" if bad else "not reproduced")
+        return 1 if bad else 0
     if "evs" not in c:
         print(json.dumps(case.get("no_longer_checks")))
         return 1
